@@ -24,7 +24,7 @@ def describe(tier):
                 "point and the validity check only (the setter writes a ContextVar read by the harness evaluators; expressions with <= 3 leaves also with the library's "
                 "ContentEvaluationResult-based evaluators and a setter that stores the dumped result for the injected provider), also for the two-part forms. "
                 "The validity check is also run on one valid and one invalid expression with 6 and 8 (thorough: 9) distinct requirement keys "
-                "(up to 3^9*2 content evaluation results). Non-trivial = expressions with >= 1 O/X operator. Also {len(SPELLING_EXPRS)} expressions that contain several SPELLINGS of one key number ([1], [01], [001]) - different keys for every evaluator - through the harness and the ContentEvaluationResult-based evaluators.",
+                "(up to 3^9*2 content evaluation results). Non-trivial = expressions with >= 1 O/X operator. Also 8 expressions that contain several SPELLINGS of one key number ([1], [01], [001]) - different keys for every evaluator - through the harness and the ContentEvaluationResult-based evaluators.",
         "bounds": {"sizes": BOUNDS[tier]},
         "exhaustive": True,
         "assumptions": ["I6: is_valid_expression is exercised with AHB expressions (its documented input)"],
